@@ -208,7 +208,11 @@ def _walk_stateful(f, acc, headers, skips):
         if is_ctx_write(x):
             # ctx->left is a byte/element budget (BER's ADVANCE decrements it on every advance); what tells the
             # resumed call where it is are phase, step, context and the object parked in ptr
-            return x.get("field") != "left"
+            if x.get("field") == "left" and x.get("op") not in ("++", "--", "++post", "--post"):
+                # ctx->left is a byte/element budget: `-= num` inside ADVANCE and `= length` after a fetch do not tell
+                # the resumed call where it is; stepping it by one (the end-of-contents counter) does
+                return False
+            return True
         if x["k"] == "assign" and x.get("deref") and x.get("base_id") in der:
             return True
         if x["k"] == "call":
@@ -259,7 +263,7 @@ def _walk_stateful(f, acc, headers, skips):
                 stop = True
                 break
             if k == "call" and x.get("callee") in headers:
-                pend = (x.get("line"), None)
+                pend = (x.get("line"), pend[1])      # a new fetch does not settle an earlier unsaved advance
             if state_write(x):
                 pend = (None, None)
                 if x["k"] == "assign" and x.get("field") in ("phase", "step", "context", "ptr", "left") or x["k"] == "call" or x.get("base_id") in der:
@@ -411,10 +415,57 @@ def r05_3(prog, tab):
     return r
 
 
+def r05_4(prog, tab):
+    """When a member decoder answers WMORE the element is not finished: on the way to the return the parent must not
+    step its element/step/phase counters (the resumed call would skip or lose the unfinished element)."""
+    r = Rule("R05.4", "a parent decoder does not step its element, step or phase counters on the path where a member decoder asked for more data", floor=8)
+    for f in scope_decoders(prog):
+        if not is_stateful(f):
+            continue
+        for b, i, e in f.calls():
+            if not (e.get("slot") in RESTART_SLOTS and "asn_TYPE_operation" in e.get("slot_struct", "")):
+                continue
+            if "asn_dec_rval" not in e.get("ret_type", ""):
+                continue
+            subj = assume.subject_of_call(e, "code")
+            key = "->%s@%s" % (e["slot"], _phase_label(f, b))
+            if subj is None or subj.kind == "call":
+                r.ok(f, key, "member result returned/inspected in place", e["line"], nontrivial=False)
+                continue
+            hits = assume.explore(f, b, i, subj, 1, lambda b_, i_, e_, env=None: "success", origin_callid=e.get("id"), from_entry=False)
+            bad = None
+            for kind, rb, ri, re, path, lost in hits:
+                if kind == "abort":
+                    continue
+                for n_, bid in enumerate(path):
+                    evs = f.blocks[bid].ev
+                    if n_ == 0:
+                        evs = evs[i + 1:]
+                    for x in evs:
+                        if is_ctx_write(x):
+                            stepping = x.get("op") in ("++", "--", "++post", "--post") or \
+                                (x.get("field") in ("step", "phase") and not (x.get("op") == "=" and False))
+                            if stepping and x.get("field") in ("left", "step", "phase"):
+                                bad = (x, re, path)
+                                break
+                    if bad:
+                        break
+                if bad:
+                    break
+            if bad is None:
+                r.ok(f, key, "assuming the member decoder answered RC_WMORE, no element/step/phase counter is stepped before returning", e["line"])
+            else:
+                x, re, path = bad
+                r.bad(f, key, "assuming the member decoder answered RC_WMORE, `%s %s` at line %s steps the parent's position before the return "
+                              "at line %s: the unfinished element is skipped or lost when decoding resumes" % (x.get("lhs"), x.get("op"), x.get("line"), re.get("line")),
+                      e["line"], witness={"path": guards.path_lines(f, list(path))})
+    return r
+
+
 def run(ctx):
     prog = ctx.prog("S")
     tab = load_tables("c05")
-    return run_rules(prog, tab) + [r05_3(prog, tab)]
+    return run_rules(prog, tab) + [r05_3(prog, tab), r05_4(prog, tab)]
 
 
 def thorough(ctx):
